@@ -10,7 +10,9 @@ Import ListNotations.
 (* ---------- the property at full strength (statements) ----------
    [fun2core_correct_statement]: for every annotated (type-checked) program inside the property's
    precondition, every terminating defined run of the source is reproduced by the Core machine on the
-   translated program.  FALSE of the faithful model - see C02_fun2core_capture_refuted below. *)
+   translated program.  FALSE of the faithful model: before fix <commitcap> by variable capture
+   (C02_fun2core_capture_refuted_before_fix below), and still by a call whose target is main
+   (C02_fun2core_call_to_main_refuted, whose witness is also inside this precondition). *)
 Definition fun2core_correct_statement : Prop :=
   forall (p : fcprog) (c : cprog) (args : list Z) (n : nat) (o : obs),
     annotated_fcprog p = true -> effect_sequenced p = true ->
@@ -28,19 +30,31 @@ Definition fun2core_correct_guarded_statement : Prop :=
     run_fun n p args = o -> defined o = true ->
     exists m, run_core m c args = o.
 
-(* ---------- refuted: the unguarded statement fails on the section-7.1 witness ---------- *)
-(* There is an annotated, effect-sequenced program (corpus/fun/capture1.sc; modelrun checks on every
-   run that the value used here IS the real checker's output for that file) whose source run is
-   defined and differs from the run of its translation: 12 is printed by the source semantics, 14 by
-   the Core program.  Hence ~ fun2core_correct_statement. *)
-Theorem C02_fun2core_capture_refuted :
+(* ---------- REPAIRED (fix <commitcap> of /repo): variable capture on the section-7.1 witness ----------
+   Before the fix the translation placed the continuation it was given UNDER the binder of a `let` /
+   under the pattern binders of a `case` even when the continuation mentions a variable of that name, which
+   was thereby captured.  [compile_prog_before_fix] is the model with the old behaviour (regression): there
+   is an annotated, effect-sequenced program (corpus/fun/capture1.sc; modelrun checks on every run that the
+   value used here IS the real checker's output for that file) whose source run is defined and differs from
+   the run of its OLD translation: 12 is printed by the source semantics, 14 by the old Core program. *)
+Theorem C02_fun2core_capture_refuted_before_fix :
   exists (p : fcprog) (args : list Z) (c : cprog) (n : nat),
     annotated_fcprog p = true /\ effect_sequenced p = true /\
-    compile_prog p = Ok c /\
+    compile_prog_before_fix p = Ok c /\
     defined (run_fun n p args) = true /\
     run_fun n p args <> run_core n c args.
-Proof. exact fun2core_capture_refuted_lemma. Qed.
-Print Assumptions C02_fun2core_capture_refuted.
+Proof. exact fun2core_capture_before_fix_lemma. Qed.
+Print Assumptions C02_fun2core_capture_refuted_before_fix.
+(* ... the repaired translation names the continuation first (< mu a. [[t]]_a | c >) whenever a binder it is
+   about to place above c occurs free in c: the witness now runs like its source, and it is INSIDE the
+   guard of C02_fun2core_correct_fragment2 (C02_guard_accepts_capture_witness below), which no longer
+   has a capture guard *)
+Theorem C02_capture_witness_fixed :
+  compile_prog capture_witness = Ok (compiled_or_empty capture_witness) /\
+  run_core 200 (compiled_or_empty capture_witness) [] = run_fun 200 capture_witness [] /\
+  run_fun 200 capture_witness [] = ([(true, 12%Z)], OExit 0%Z).
+Proof. exact capture_witness_fixed_lemma. Qed.
+Print Assumptions C02_capture_witness_fixed.
 
 (* ---------- refuted: the BARENDREGT-GUARDED statement fails as well (known finding call-to-main) ----------
    compile_main gives the Core definition `main` no return-continuation parameter (its body ends in
@@ -145,8 +159,8 @@ Theorem C02_wc_expression_is_cut : forall e, iexp e = true ->
 Proof. exact wc_iexp. Qed.
 Print Assumptions C02_wc_expression_is_cut.
 
-(* the hygiene statement at full strength, NOT proved (and false without the guard, see the capture
-   witness): under [barendregt] the Core machine on the translated
+(* the hygiene statement at full strength, NOT proved (false of the translation before fix <commitcap>
+   without the guard, see the capture witness): under [barendregt] the Core machine on the translated
    program reproduces the source - this is fun2core_correct_guarded_statement above; its name-level
    reading "every occurrence of a source variable, covariable or label in compile_prog p is bound by
    the translation of its source binder" follows from it for all variables that matter
@@ -208,12 +222,9 @@ Print Assumptions C02_fun2core_correct_partial.
      ws (compile_ctx (fdctx d)) (fdbody d)   well-scoped: every variable/covariable occurrence is in scope
                                              of a parameter or binder of the SAME kind and type
                                              annotation (what the type checker guarantees),
-     nocap (fdbody d)                        the CAPTURE GUARD: wherever the translation places a
-                                             continuation built from a term u under the binders of a
-                                             term t (let-bound term / case or destructor scrutinee /
-                                             labelled term), the binders of t are distinct from all
-                                             names of u; implied by the Barendregt condition (below),
      and main has data-typed producer parameters and a data result.
+   NO CAPTURE GUARD any more (it was `nocap (fdbody d)` until fix <commitcap>): binders may shadow each
+   other and the parameters freely; the Barendregt condition is not needed.
    Conclusion: EVERY source run that ends in a final outcome ([final]: normal exit or undefined
    arithmetic; stuck and out-of-fuel runs are not compared) is reproduced, output and outcome, by the
    Core machine on the model's translation.
@@ -224,13 +235,16 @@ Print Assumptions C02_fun2core_correct_partial.
    values they expect ([Kk n c]); environments pointwise on the free variables of the statement being
    run; the syntactic continuation carried by the translation means a source continuation in EVERY
    environment that agrees on its typed free variables ([KS]) - which is what makes the lifted
-   definitions share_<f>_<n> (environment = parameters only) and by-name thunks work.  WHERE THE GUARD
-   IS USED: only in the cases that put a continuation under a binder - `let x = t; u` (lemma fl_let),
-   `case` (fl_case), destructor calls with a non-atomic scrutinee (fl_dtor_general: the destructor
-   consumer with its arguments is placed under the binders of the scrutinee - capture4.sc),
-   `label`/`goto` - as the disjointness of those binders from the free names of the continuation.
-   Without it the statement is false: capture_witness satisfies frag, kd and ws but not nocap
-   (C02_guard_rejects_capture_witness).
+   definitions share_<f>_<n> (environment = parameters only) and by-name thunks work.  WHERE CAPTURE
+   MATTERS: only the cases that put the continuation under a binder - `let x = t; u` (fl_let) and `case`
+   (fl_case).  There the translation is the repaired one, [guard_capture] (Model/Fun2Core.v): lemma
+   fl_guard (Proof/Fun2CoreFLg.v) proves the simulation for < mu a. [[t]]_a | c > from the simulation of the
+   inner translation, which is proved under the hypothesis the check establishes (no binder of the
+   let / the patterns occurs free in the continuation: fl_let_in, fl_case_in).  Continuations that the
+   translation BUILDS itself (mu~ x. [[u]]_c for a let, the case consumer, the destructor consumer with its
+   arguments - capture4.sc -, label covariables) need no disjointness at all: the invariant on
+   continuations is by typed free variables, and a binder further down that would clash with them is
+   handled by the same check when it is reached.
    NOT COVERED: the exclusions listed above (frag/kd are false on them; no proof holes). *)
 Theorem C02_fun2core_correct_fragment2 :
   forall (p : fcprog) (c : cprog) (args : list Z) (n : nat) (o : obs),
@@ -243,15 +257,17 @@ Proof. exact fun2core_correct_fragment_lemma. Qed.
 Print Assumptions C02_fun2core_correct_fragment2.
 
 (* the Barendregt condition of the property (binders of a definition pairwise distinct and distinct
-   from its parameters) implies the capture guard, for well-scoped definitions of the fragment *)
+   from its parameters) implies the FORMER capture guard [nocap], for well-scoped definitions of the fragment
+   (kept; the guard itself is no longer a hypothesis of any theorem) *)
 Theorem C02_barendregt_implies_capture_guard : forall p d,
   frag p (fdbody d) = true -> ws (compile_ctx (fdctx d)) (fdbody d) = true -> barendregt_def d = true ->
   nocap (fdbody d) = true.
 Proof. exact barendregt_def_nocap. Qed.
 Print Assumptions C02_barendregt_implies_capture_guard.
 
-(* ... so the theorem holds under the guard of fun2core_correct_guarded_statement plus the fragment:
-   [frag_prog p]: every definition is in the fragment and well-scoped, main returns data *)
+(* ... the theorem under the guard of fun2core_correct_guarded_statement plus the fragment:
+   [frag_prog p]: every definition is in the fragment and well-scoped, main returns data (since fix
+   <commitcap> [frag_prog] and [prog_guard] are the same predicate and the Barendregt hypothesis is unused) *)
 Theorem C02_fun2core_correct_fragment2_barendregt :
   forall (p : fcprog) (c : cprog) (args : list Z) (n : nat) (o : obs),
     compile_prog p = Ok c ->
@@ -308,14 +324,25 @@ Example C02_fragment2_example_codata :
   run_core 2000 (compiled_or_empty ex_codata) [10%Z] = ([(true, 13%Z); (true, 10%Z); (true, 12%Z); (true, 7%Z)], OExit 0%Z).
 Proof. exact ex_codata_ok. Qed.
 
-(* the guard is necessary: the capture witness (C02_fun2core_capture_refuted) is in the fragment and
-   well-scoped - what it violates is exactly the capture guard; the call-to-main witness violates frag *)
-Theorem C02_guard_rejects_capture_witness :
-  forallb (fun d => frag capture_witness (fdbody d) && kd capture_witness (fdbody d) && ws (compile_ctx (fdctx d)) (fdbody d)) (fcpdefs capture_witness) = true /\
+(* the capture witness (C02_fun2core_capture_refuted_before_fix) is in the fragment and well-scoped; it
+   violates the FORMER capture guard [nocap] and the syntactic detector [shadowing_risk_prog] fires on it -
+   and it is INSIDE the guard of C02_fun2core_correct_fragment2: the theorem applies to a program with
+   shadowing binders.  The call-to-main witness violates frag. *)
+Theorem C02_guard_accepts_capture_witness :
+  prog_guard capture_witness = true /\ NoDup (map fdname (fcpdefs capture_witness)) /\
   existsb (fun d => negb (nocap (fdbody d))) (fcpdefs capture_witness) = true /\
-  prog_guard capture_witness = false /\ prog_guard call_main_witness = false.
-Proof. vm_compute. repeat split; reflexivity. Qed.
-Print Assumptions C02_guard_rejects_capture_witness.
+  shadowing_risk_prog capture_witness = true.
+Proof. exact guard_accepts_capture_witness. Qed.
+Print Assumptions C02_guard_accepts_capture_witness.
+Theorem C02_guard_rejects_call_main_witness : prog_guard call_main_witness = false.
+Proof. exact guard_rejects_call_main_witness. Qed.
+(* ... hence, by the THEOREM (not by evaluation), every final source run of the capture witness is
+   reproduced by the Core machine on its translation *)
+Theorem C02_capture_witness_simulated : forall (args : list Z) (n : nat) (o : obs),
+  run_fun n capture_witness args = o -> final o ->
+  exists m, run_core m (compiled_or_empty capture_witness) args = o.
+Proof. exact capture_witness_simulated. Qed.
+Print Assumptions C02_capture_witness_simulated.
 
 (* ---------- for property C19 (output size): continuations are shared, not duplicated ---------- *)
 (* `if` with a continuation that is not a leaf: the continuation is lifted ONCE by `share` (it sits in
